@@ -25,11 +25,19 @@ def parseOp (w : String) : Option CmpOp :=
   | "eq" => some .eq | "ne" => some .ne | "lt" => some .lt | "le" => some .le | "gt" => some .gt | "ge" => some .ge
   | _ => none
 
-/-- prefix notation: `cmp <op> <l> <r>` | `atom <o>` | `and A B` | `or A B` | `not A` -/
+def parseOther (w : String) : Option OtherOp :=
+  match w with
+  | "in" => some .isIn | "nin" => some .notIn | "is" => some .is
+  | _ => none
+
+/-- prefix notation: `cmp <op> <l> <r>` | `oth <in|nin|is> <l> <r>` | `atom <o>` | `and A B` | `or A B` | `not A` -/
 partial def parseExpr : List String → Option (FExpr × List String)
   | "cmp" :: op :: l :: r :: ws => do
     let op ← parseOp op; let l ← parseOperand l; let r ← parseOperand r
     pure (.cmp op l r, ws)
+  | "oth" :: op :: l :: r :: ws => do
+    let op ← parseOther op; let l ← parseOperand l; let r ← parseOperand r
+    pure (.other op l r, ws)
   | "atom" :: o :: ws => (parseOperand o).map fun o => (.atom o, ws)
   | "and" :: ws => do
     let (a, ws) ← parseExpr ws; let (b, ws) ← parseExpr ws
@@ -42,10 +50,18 @@ partial def parseExpr : List String → Option (FExpr × List String)
     pure (.not a, ws)
   | _ => none
 
+/-- a field value: a scalar token, or a flat array `A(tok,tok,…)` / `A()` -/
+def parseFieldValue (v : String) : Option Value :=
+  if v.startsWith "A(" && v.endsWith ")" then
+    let inner := ((v.drop 2).dropEnd 1).toString
+    if inner.isEmpty then some (.array [])
+    else ((inner.splitOn ",").mapM parseLit).map fun ls => .array (ls.map Lit.toValue)
+  else (parseLit v).map Lit.toValue
+
 def parseEvent (ws : List String) : Option Event :=
   if ws == ["-"] then some [] else
   ws.mapM fun w => match w.splitOn "=" with
-    | [k, v] => (parseLit v).map fun l => (k, l.toValue)
+    | [k, v] => (parseFieldValue v).map fun x => (k, x)
     | _ => none
 
 def findingId : Finding → String
